@@ -566,6 +566,7 @@ func (fr *Frame) enterLoop(lp *Loop, edges []Edge, order []*ssa.BasicBlock) {
 	// 2. dry run to find the modified set
 	snap := c.Snapshot()
 	// caches that hold terms declared during the dry run must not survive it
+	savedProxies := len(x.proxies)
 	savedUfApps := map[string][][]Term{}
 	for k, v := range x.ufApps {
 		savedUfApps[k] = append([][]Term(nil), v...)
@@ -609,6 +610,7 @@ func (fr *Frame) enterLoop(lp *Loop, edges []Edge, order []*ssa.BasicBlock) {
 	x.wildLog, x.refLog = savedWild, savedRef
 	c.Restore(snap)
 	x.ufApps, x.matSeq, x.iteDefs = savedUfApps, savedMat, savedIte
+	x.proxies = x.proxies[:savedProxies]
 	x.cur.names = savedNames
 	// 3. havoc the modified set
 	sh := se.Clone()
